@@ -18,7 +18,7 @@
                                                                `formula = None`, current value kept
        (a never-computed formula cell is evaluated first    -> `evalFrozen`; the pinned code froze it at `None`:
         — `fix:` commit of C08)                                 `trimAsWritten`, only used by the counterexample)
-    5) delete what is not needed             -> `keep`       = needed ∪ frozen   (= `set(cell_map)` after the trim)
+    5) delete what is not needed             -> `keep`       = live ∪ frozen  (= `set(cell_map)` after the trim)
 
   Where the model follows the PROPERTY (C08) and not the pinned code; both were defects of the pinned code, found by
   the C08 correspondence and repaired in /repo (fix: 2f00813, 15e38fa), so code and model now coincide:
@@ -31,13 +31,12 @@
   the code's depth-first walks with a visited set: the SET a closure walk returns does not depend on the visiting order,
   and `set(cell_map)` after the trim is compared with `keep` by the correspondence on every generated case.
 
-  A live range that is not needed (no member depends on an input, not an output) is deleted from the cell map by step 5
-  although formulas that stay still read it; pycel re-creates it from its member cells — all kept — at the next read
-  (`_evaluate_range`: `cell_map.get(address) is None -> _gen_graph`) and when a saved model is loaded.  The trimmed
-  STATE therefore keeps such a range (`avail`), while `keep` — what is compared with the cell map — does not list it.
-  A kept cell that the precedent walk did not reach (a dependant of an input that feeds no output) keeps its formula
-  but may have lost precedents; the model drops its cached value (pycel keeps it; recomputing gives the same value,
-  the cell is no output), so that the trimmed state satisfies the engine invariant of C01 as it stands.
+  The cell map after the trim is exactly what the walk from the outputs reached (`keep = live ∪ frozen`).  The pinned
+  code kept `needed ∪ frozen` instead: a walked range none of whose members depends on an input was deleted although
+  kept formulas read it (a second trim_graph raised KeyError, a whole-column reference could not be loaded from the
+  saved file), and a dependant of an input that feeds no output stayed behind with its formula while its other
+  precedents were deleted (KeyError when a later trim named it as output; wrong values after a reload).  Both were
+  repaired in /repo (`fix:` commits of C08), so code and model coincide.
 
   The trimmed model is `(t.wb, t.f, t.st)`: frozen cells are value cells (`cutAt`), their formula is the constant they
   were frozen at.  `reloadWb/reloadInp`: what `to_file` + `from_file` make of it (cells of the cell map are written —
@@ -96,11 +95,14 @@ def live (k : Nat) : Bool := liveF wb built I O (wb.n - k) k
 def frozen (k : Nat) : Bool :=
   !needed wb built I O k && !isRange wb k && (succs wb k).any fun m => live wb built I O m
 
-/-- step 5: what stays in the cell map -/
-def keep (k : Nat) : Bool := needed wb built I O k || frozen wb built I O k
+/-- step 5: what stays in the cell map: the outputs and what the precedent walk reached from them — the walked cells
+    (ranges included) and the frozen cells.  (`fix:` commits of C08; the pinned code kept `needed ∪ frozen`: it deleted
+    a walked range none of whose members depends on an input although kept formulas read it, and it kept a dependant
+    of an input that feeds no output while deleting that cell's other precedents.) -/
+def keep (k : Nat) : Bool := live wb built I O k || frozen wb built I O k
 
-/-- kept, or a walked range (re-created from its kept member cells on the next read) -/
-def avail (k : Nat) : Bool := keep wb built I O k || (isRange wb k && live wb built I O k)
+/-- the cell map of the trimmed model -/
+def avail (k : Nat) : Bool := keep wb built I O k
 
 /-- step 2, the error: a value cell that is in the cell map, has no dependant there, and is not an output -/
 def unusedInput (i : Nat) : Bool :=
